@@ -127,6 +127,13 @@ type art struct {
 	evals    int
 	hashes   []uint64
 	outside  map[string]string
+	t        *testing.T
+	cfg      simrt.Config
+}
+
+// sim runs one consumer call under the seeded scheduler (see stor.UnderSim).
+func (a *art) sim(key string, fn func()) (string, string) {
+	return stor.UnderSim(a.t, a.cfg, key, fn)
 }
 
 func hash64(s string) uint64 {
@@ -365,7 +372,10 @@ func (a *art) loadDir(dir string, mustErr bool, tag string) (string, string) {
 	dst := stor.NewTarget()
 	lo := retriever.DefaultLoadOptions(dir)
 	lo.BatchSize, lo.VerifyMetrics, lo.ProgressInterval = 2, a.w.Verify, 0
-	_, err := retriever.Load(context.Background(), dst, "simdb", lo)
+	var err error
+	if c, d := a.sim(tag, func() { _, err = retriever.Load(context.Background(), dst, "simdb", lo) }); c != "" {
+		return c, d
+	}
 	if err != nil {
 		a.counters["rejected"]++
 		if len(dst.MutLog) > 0 {
@@ -518,6 +528,7 @@ func (a *art) runLoadDir(mu Mut) (string, string) {
 		tag += fmt.Sprintf("@%d (%q -> %q)", off, a.manifest[off], nb[off])
 	case "manifest_trunc":
 		os.WriteFile(mp, a.manifest[:int(mu.A)%len(a.manifest)], 0o600)
+		mustErr = false // cutting only the trailing newline leaves the same document (H3)
 	case "extra_garbage_manifest":
 		os.WriteFile(mp, append(append([]byte{}, a.manifest...), []byte("{}")...), 0o600)
 		mustErr = false
@@ -804,7 +815,10 @@ func (a *art) runStream(mu Mut) (string, string) {
 	case "tarload":
 		out := a.fresh("untar")
 		simos.Reset(a.plan())
-		err := retriever.UnpackTar(reader(data, failAfter), out, false)
+		var err error
+		if c, d := a.sim(tag, func() { err = retriever.UnpackTar(reader(data, failAfter), out, false) }); c != "" {
+			return c, d
+		}
 		if c, d := a.containment(tag); c != "" {
 			return c, d
 		}
@@ -827,7 +841,10 @@ func (a *art) runStream(mu Mut) (string, string) {
 	case "unpackenc":
 		out := a.fresh("direct")
 		simos.Reset(a.plan())
-		err := retriever.UnpackEncryptedCollectionArchive(reader(data, failAfter), out, key)
+		var err error
+		if c, d := a.sim(tag, func() { err = retriever.UnpackEncryptedCollectionArchive(reader(data, failAfter), out, key) }); c != "" {
+			return c, d
+		}
 		if c, d := a.containment(tag); c != "" {
 			return c, d
 		}
@@ -844,7 +861,10 @@ func (a *art) runStream(mu Mut) (string, string) {
 		uo := retriever.DefaultUnpackOptions(out)
 		uo.ArchiveReader, uo.ArchiveIdentity, uo.Force = reader(data, failAfter), key, a.w.OutMode == "nonempty"
 		simos.Reset(a.plan())
-		err := retriever.Unpack(uo)
+		var err error
+		if c, d := a.sim(tag, func() { err = retriever.Unpack(uo) }); c != "" {
+			return c, d
+		}
 		if c, d := a.containment(tag); c != "" {
 			return c, d
 		}
@@ -870,7 +890,10 @@ func (a *art) runStream(mu Mut) (string, string) {
 			os.RemoveAll(p)
 		}
 		simos.Reset(a.plan())
-		_, err := retriever.Load(context.Background(), dst, "simdb", lo)
+		var err error
+		if c, d := a.sim(tag, func() { _, err = retriever.Load(context.Background(), dst, "simdb", lo) }); c != "" {
+			return c, d
+		}
 		if c, d := a.containment(tag); c != "" {
 			return c, d
 		}
@@ -953,7 +976,7 @@ func (a *art) run(mu Mut) (string, string) {
 	}
 }
 
-func exec(t *testing.T, w WL, _ simrt.Config) simh.Outcome {
+func exec(t *testing.T, w WL, cfg simrt.Config) simh.Outcome {
 	o := simh.Outcome{Counters: map[string]int{}}
 	nt := true
 	o.NonTrivial = &nt
@@ -969,6 +992,8 @@ func exec(t *testing.T, w WL, _ simrt.Config) simh.Outcome {
 		o.Class, o.Detail = "infra", "building artefacts: "+err.Error()
 		return o
 	}
+	a.t, a.cfg = t, cfg
+	stor.SimSteps, stor.SimTasks = 0, 0
 	muts := w.Muts
 	if w.Sweep != "" {
 		muts = nil
@@ -1018,6 +1043,7 @@ func exec(t *testing.T, w WL, _ simrt.Config) simh.Outcome {
 	}
 	o.Evals = a.evals
 	o.CaseHashes = a.hashes
+	o.Res.Steps, o.Res.Tasks = stor.SimSteps, stor.SimTasks
 	o.Sample = map[string]any{"manifest_bytes": len(a.manifest), "fragments": len(a.frags), "tar_bytes": len(a.tarBytes), "archive_bytes": len(a.enc), "mutations_run": a.evals}
 	return o
 }
